@@ -116,7 +116,8 @@ Definition set_log (s : st) lp ov := {| disk := disk s; fds := fds s; nfd := nfd
 (* ---- files ---------------------------------------------------------------------------------------- *)
 (* OpenOrCreateFile: the content of an existing file is kept and writes append *)
 Definition open (s : st) (path : nat) : st * nat :=
-  (set_fds s (mset (fds s) (nfd s) {| fd_path := path; fd_closed := false |}) (S (nfd s)), nfd s).
+  let s1 := set_disk s (mset (disk s) path (dsk s path)) in       (* the file exists from now on *)
+  (set_fds s1 (mset (fds s1) (nfd s1) {| fd_path := path; fd_closed := false |}) (S (nfd s1)), nfd s1).
 Definition close (s : st) (fd : nat) : st :=
   set_fds s (mset (fds s) fd {| fd_path := fd_path (fdd s fd); fd_closed := true |}) (nfd s).
 (* write(2) on a descriptor: fails when it has been closed *)
